@@ -35,7 +35,7 @@ RTOL = 1e-7
 NUDGE = 1e-8
 QUICK_CAP = 300000
 THOROUGH_CAP = int(os.environ.get("C19_THOROUGH_CAP", "0"))      # 0 = full plans
-MAX_ANALYSE = 200000          # disagreeing tuples per plan that get the neighbourhood analysis
+MAX_ANALYSE = 500000          # disagreeing tuples per plan that get the neighbourhood analysis
 MAX_SINGLE = 3000             # single-call replays per plan
 WORKERS, NPROC, CHUNK = 4, 4, 25000
 
